@@ -13,7 +13,7 @@ PROPS = {
   "streams": [{"name": "c01", "bad_obs": BAD_OBS}, {"name": "c01p"}, {"name": "c05", "bad_obs": BAD_OBS}],
   "rule": "c01: every one of the 8 path-carrying opcodes x hostile path strings (fixed escapes + random walks over {.., ., '', sibling-with-root-prefix, NUL, 255-byte, names of the tree}) x writing on/off x with/without prior history; "
           "each session is run twice with different worlds OUTSIDE the root (oracle = twin run) and the recorder under BasePathFs counts OS paths outside the root; non-trivial = path contains '..', NUL or is over-long. "
-          "c01p: filepath.Clean('/'+p) and BasePathFs.RealPath vs the Lean PathStr model on random component strings x 8 root spellings",
+          "c01p: filepath.Clean('/'+p) and BasePathFs.RealPath vs the Lean PathStr model on random component strings x 8 root spellings; fixed escapes include a NUL glued to a dot-dot element (a name to Clean, never a way up)",
   "assumptions": _CONN_ASSUME + ["symlinks inside the root are followed by design (outside the claim)", "Windows path semantics not modelled"],
  },
  "C02": {
@@ -22,13 +22,13 @@ PROPS = {
   "streams": [{"name": "c02", "bad_obs": BAD_OBS}, {"name": "c10", "bad_obs": BAD_OBS}, {"name": "c13"}, {"name": "c12", "bad_obs": BAD_OBS}],
   "rule": "files of boundary sizes (0,1,2047..2049,65535..65537,…, sparse files past 4 GiB with marker bytes) x OPEN_FILE then 1-6 READ_FILE / READ_FILE_CRITICAL with (offset,limit) from structural boundaries incl. offset>=size, limit 0, crossing EOF, interleaved with other requests; "
           "oracle = the harness's own copy of the content; distinct = (size, request list); the third kind of served object, the decrypting view, is covered by running the c10 stream here as well (aligned and unaligned reads of encrypted images against the crypto/aes reference); "
-          "'a read that cannot be satisfied ends the connection after at most a correct prefix' is exercised under I/O faults by running the c13 stream here too (a fault at every filesystem operation of sessions over plain files, generated and encrypted images: never altered or unannounced bytes)",
+          "'a read that cannot be satisfied ends the connection after at most a correct prefix' is exercised under I/O faults by running the c13 stream here too (a fault at every filesystem operation of sessions over plain files, generated and encrypted images: never altered or unannounced bytes); and under concurrency by the c12 stream with the race detector (several connections transferring at the same moment: each receives its own bytes)",
   "assumptions": _CONN_ASSUME + ["Content.read (pattern + overlays spliced) is the model's notion of 'the stored bytes'; tied to the real files byte-for-byte by the differential"],
  },
  "C03": {
   "props_modules": ["Ps3.Props.C03"],
   "streams": [{"name": "c03", "bad_obs": BAD_OBS}, {"name": "conn", "bad_obs": BAD_OBS}],
-  "rule": "c03: raw byte streams = valid request sequences cut at/around every request boundary and inside commands/paths/payloads, unknown opcodes spliced in, short WRITE payloads, garbage, lying path lengths; observable = all bytes sent by the server + exact number of request bytes consumed + final tree. "
+  "rule": "c03: raw byte streams = valid request sequences cut at/around every request boundary and inside commands/paths/payloads, unknown opcodes spliced in, short WRITE payloads, garbage, lying path lengths; observable = all bytes sent by the server + exact number of request bytes consumed + final tree; every second stream is delivered in random small pieces (one Write each: commands, paths and payloads arrive fragmented as over a real network). "
           "conn: random lockstep sessions over all 15 opcodes in all state combinations (dir open/exhausted, ro file, wo file, writing on/off), every response compared; distinct = (tree, request list)",
   "assumptions": _CONN_ASSUME,
  },
@@ -36,13 +36,13 @@ PROPS = {
   "props_modules": ["Ps3.Props.C05"],
   "race_always": True,
   "streams": [{"name": "c05", "bad_obs": BAD_OBS}, {"name": "c12", "bad_obs": BAD_OBS}],
-  "rule": "read-only servers bombarded with mutating requests (full before/after snapshot of the root: names, kinds, sizes, content hashes, mtimes) and write-enabled upload sessions (CREATE new/existing/nested/virtual/impossible targets, 0-4 WRITE chunks of 0..140000 bytes, read back through the server, MKDIR/RMDIR/DELETE incl. wrong-kind targets); distinct = session",
+  "rule": "read-only servers bombarded with mutating requests (full before/after snapshot of the root: names, kinds, sizes, content hashes, mtimes) and write-enabled upload sessions (CREATE new/existing/nested/virtual/impossible targets, 0-4 WRITE chunks of 0..140000 bytes, read back through the server, MKDIR/RMDIR/DELETE incl. wrong-kind targets); distinct = session; the concurrent c12 stream runs here as well, under the race detector (uploads of several connections at the same moment into private subtrees: exactly the uploaded bytes)",
   "assumptions": _CONN_ASSUME + ["the switch itself (flag/env/ini) is C19's"],
  },
  "C06": {
   "props_modules": ["Ps3.Props.C06"],
   "streams": [{"name": "c06", "bad_obs": BAD_OBS}],
-  "rule": "generated trees (nested, 255-byte and non-ASCII names, symlinks to files/dirs/nothing, a directory with hundreds/thousands of entries) x {bulk listing twice, entry-by-entry v1/v2 until past the end with interleaved STATs, STAT + GET_DIR_SIZE of every kind of path}; oracle = the harness's own stat walk of the tree it built",
+  "rule": "generated trees (nested, 255-byte and non-ASCII names, symlinks to files/dirs/nothing, a directory with hundreds/thousands of entries) x {bulk listing twice, entry-by-entry v1/v2 until past the end with interleaved STATs, STAT + GET_DIR_SIZE of every kind of path}, enumerations interleaved with file opens, the reserved path /CLOSEFILE and failing opens; dedicated cases: directories with the setgid/sticky bit, links that do not resolve (to themselves, through a regular file, in pairs), link cycles through directories, a directory just short of PATH_MAX holding entries beyond it (one of them the witness of the open finding C06-path-max); oracle = the harness's own stat walk of the tree it built (for objects beyond PATH_MAX: the tree itself)",
   "assumptions": _CONN_ASSUME,
  },
  "C07": {
@@ -99,7 +99,7 @@ PROPS = {
               {"name": "c03", "bad_obs": BAD_OBS}, {"name": "viso"}],
   "rule": "c04: (A) hostile worlds served in-process and predicted response by response by the Lean model: PARAM.SFO wrong in 12 specific ways (truncated, bad magic, counts/offsets/lengths of 0, 2^31, 2^32-1, keys without terminator, bit flips) x TITLE_IDs of 0..40 bytes, region tables wrong in 9 ways (counts 0/1/256/2^32-1, truncated, overlapping, beyond the file, 255 regions) x 6 key-file situations, truncated 3k3y areas, names of 255 bytes / invalid UTF-8 / control characters, read geometries around every boundary incl. offsets >= 2^63 and lengths 2^32-1; "
           "(B) the REAL binary on such a root under hostile byte streams (random, mutated valid sessions, extreme fields, structure-aware opens of every hostile object through every view, floods of 30 concurrent clients): after each the process must run, a fresh connection must be served, a bystander connection must still receive its exact bytes; "
-          "(C) the REAL binary's make-iso / decrypt on every hostile input: a normal exit, never a crash; (D) descriptor exhaustion (ulimit -n 40/100, 3x as many clients) and READ_FILE lengths of 512 MiB..2 GiB x 3..6 clients with the peak RSS of the process bounded; a game whose PARAM.SFO is a 1..3 GiB sparse file declaring a 4 GiB TITLE_ID opened as /***PS3***/ image, peak RSS bounded. "
+          "(C) the REAL binary's make-iso / decrypt on every hostile input: a normal exit, never a crash; (D) descriptor exhaustion (ulimit -n 40/100, 3x as many clients) and READ_FILE lengths of 512 MiB..2 GiB x 3..6 clients with the peak RSS of the process bounded; a game whose PARAM.SFO is a 1..3 GiB sparse file declaring a 4 GiB TITLE_ID opened as /***PS3***/ image, peak RSS bounded; the real binary started with --buffer-size=0, 1, 4097 and 3M transfers a file (bytes, process, accept loop). "
           "c03: raw byte sessions with cuts at every boundary against the model; viso: read geometries of generated images, the model's checked read (readC) must not fault and must equal Image.read",
   "assumptions": ["process survival, accepting, memory and descriptor behaviour are runtime behaviour: observed on the real binary, not proved",
                   "the checked transcriptions in Model/Checked.lean are hand-written from the Go source; they are tied by the differential (a panic of the real code where the model has no fault is reported with the input)",
@@ -118,7 +118,7 @@ PROPS = {
   "race_thorough": True,
   "race_always": True,
   "streams": [{"name": "c12", "bad_obs": BAD_OBS}],
-  "rule": "rounds of 2/4/8 (thorough: up to 64) clients running random sessions CONCURRENTLY against one server (shared plain files, the same generated image, an encrypted image, private writable subtrees), GOMAXPROCS cycled through 1,2,4,16; every client's full response stream is compared with the sequential model's prediction for that client alone; handle ledger after all clients finished. thorough: the harness and the server code are built with -race and any race report is a violation",
+  "rule": "rounds of 2/4/8 (thorough: up to 64) clients running random sessions CONCURRENTLY against one server (shared plain files, the same generated image, an encrypted image, private writable subtrees), GOMAXPROCS cycled through 1,2,4,16; every client's full response stream is compared with the sequential model's prediction for that client alone; handle ledger after all clients finished. thorough: the harness and the server code are built with -race and any race report is a violation; every round starts with clients that abort a 2 MiB download in the middle (the copier's error path); a last round is an open storm: four clients re-opening an encrypted 3k3y image (key read out of the image at every open) and reading inside an encrypted region against four clients opening other files, on one scheduler thread over a file system that yields at every call, without the recorder and with a silent log handler (their mutexes would order the connections and hide sharing from the race detector)",
   "assumptions": ["data-race freedom in Go's memory model and the scheduler are runtime behaviour: observed (race detector in the thorough tier), not proved",
                   "sessions avoid enumerating directories they mutate (OS enumeration order after a change is not modelled)"] + _CONN_ASSUME,
  },
@@ -143,7 +143,7 @@ PROPS = {
   "needs_binary": True,
   "streams": [{"name": "c15", "timeout_quick": 300, "timeout_thorough": 1200}],
   "rule": "real iprange.FilterListener over real netutil.LimitListener (wrapped in the order of cmd/ps3netsrv-go/server.go) on loopback TCP. Whitelist: 20 (150) specifications over 127.0.0.0/8 (single, CIDR, mask, range, IPv4-mapped, foreign) x 12-14 client source addresses bound to 127.x.y.z at and around the block borders: served vs closed without a byte. "
-          "Limit: N in 1..3 (1..8) with up to 4N clients in random arrival/departure orders mixed with rejected (non-whitelisted) arrivals; after every event the set of answered connections is compared with the model's",
+          "Limit: N in 1..3 (1..8) with up to 4N clients in random arrival/departure orders mixed with rejected (non-whitelisted) arrivals; after every event the set of answered connections is compared with the model's; the whitelists include genuine IPv6 sets whose low 32 bits bracket the IPv4 clients (nobody of them is inside); every second limit order runs over a file system whose handles report an error from Close() while each client holds a directory open (the slot must come back all the same)",
   "assumptions": ["'wait without being served' is kernel backlog behaviour: observed with 40 ms settle time per event, not proved", "fair accept loop", "membership is C14's"],
  },
  "C16": {
@@ -155,7 +155,7 @@ PROPS = {
  "C17": {
   "props_modules": ["Ps3.Props.C17"],
   "streams": [{"name": "c17", "bad_obs": BAD_OBS}, {"name": "c13"}],
-  "rule": "sparse raw CD images for all 7 sector sizes x both signatures, sizes at/around the 2 MiB and 848 MiB window edges, no signature; several images re-opened on one connection; (start,count) incl. start != count, count 0, and a final range crossing EOF; oracle = user-data slices of the synthesised image",
+  "rule": "sparse raw CD images for all 7 sector sizes x both signatures, sizes at/around the 2 MiB and 848 MiB window edges, no signature; several images re-opened on one connection; (start,count) incl. start != count, count 0, and a final range crossing EOF; oracle = user-data slices of the synthesised image; the c13 fault stream runs here as well (scenario cd: an I/O error at every operation of the sector-size probe and of READ_CD - the open fails or the sectors are right)",
   "assumptions": _CONN_ASSUME,
  },
 }
